@@ -73,6 +73,8 @@ def sym_to_expr(e) -> tuple:  # noqa: ANN001, C901, PLR0911, PLR0912
                 sympy.LessThan: "le",
                 sympy.StrictGreaterThan: "gt",
                 sympy.GreaterThan: "ge",
+                sympy.Equality: "eq",
+                sympy.Unequality: "ne",
             }.get(type(c))
             if rel is None:
                 raise Untranslatable(f"condition {type(c).__name__}")
@@ -130,7 +132,7 @@ def cexpr(e: tuple) -> str:
     if k == "pow":
         return f"(EPow {cexpr(e[1])} {common.cz(e[2])})"
     if k == "pw":
-        rel = {"lt": "RLt", "le": "RLe", "gt": "RGt", "ge": "RGe"}[e[2]]
+        rel = {"lt": "RLt", "le": "RLe", "gt": "RGt", "ge": "RGe", "eq": "REq", "ne": "RNe"}[e[2]]
         return f"(EPw {cexpr(e[1])} {rel} {cexpr(e[3])} {cexpr(e[4])} {cexpr(e[5])})"
     if k == "fun":
         return f"(EFun {cstr(e[1])} {cexpr(e[2])})"
